@@ -6,7 +6,7 @@
 From Coq Require Import ZArith Reals Bool List.
 From Flocq Require Import Core BinarySingleNaN.
 From UomV Require Import Model.Tables Model.Conv Model.FloatM Model.Quantity Model.Storages Model.Run Proofs.FloatLemmas Proofs.ConvFloat
-  Proofs.Tree Proofs.PowR Proofs.ErrBound.
+  Proofs.Tree Proofs.PowR Proofs.ErrBound Proofs.SafeB.
 Import ListNotations.
 Open Scope Z_scope.
 
@@ -128,6 +128,21 @@ End Accuracy.
 Example c03_ops_default_base :
   ops 53 1024 (to_base_tree 53 1024 p64 m64 LibStd (map (eval_f 53 1024 p64 m64) [ELit 1 0; ELit 1 0; ELit 1 0]) [1; 0; -1] (eval_f 53 1024 p64 m64 (ELit 36 (-1))) (fone 53 1024 p64 m64)) = 8%nat.
 Proof. vm_compute. reflexivity. Qed.
+
+(* non-vacuity of (6): the Safe premise holds for 1.5 km/h constructed and read in the cgs base (binary64)
+   and for 2.5 mile in a foot base (binary32), decided by exact rational arithmetic (Proofs/SafeB.v) *)
+Definition cgs_U := [ELit 1 (-2); ELit 1 (-3); ELit 1 0; ELit 1 0; ELit 1 0; ELit 1 0; ELit 1 0].
+Definition kmh := EDiv (ELit 1 3) (ELit 36 2).
+Example c03_accuracy_premise_64 :
+  Safe 53 1024 p64 m64 (to_base_tree 53 1024 p64 m64 LibStd (map (eval_f 53 1024 p64 m64) cgs_U) [1; 0; -1; 0; 0; 0; 0]
+                          (eval_f 53 1024 p64 m64 kmh) (of_lit 53 1024 p64 m64 15 (-1)))
+  /\ Safe 53 1024 p64 m64 (from_base_tree 53 1024 p64 m64 LibStd (map (eval_f 53 1024 p64 m64) cgs_U) [1; 0; -1; 0; 0; 0; 0]
+                          (eval_f 53 1024 p64 m64 kmh) (of_lit 53 1024 p64 m64 4166 (-2))).
+Proof. split; apply safe64_sound; vm_compute; reflexivity. Qed.
+Example c03_accuracy_premise_32 :
+  Safe 24 128 p32 m32 (to_base_tree 24 128 p32 m32 LibCore (map (eval_f 24 128 p32 m32) [ELit 3048 (-4)]) [1]
+                          (eval_f 24 128 p32 m32 (ELit 1609344 (-3))) (of_lit 24 128 p32 m32 25 (-1))).
+Proof. apply safe32_sound. vm_compute. reflexivity. Qed.
 
 (* ---- non-vacuity: the premises are met by real unit/base combinations (binary64) ---- *)
 Definition one_e := ELit 1 0.
